@@ -231,3 +231,13 @@ pub fn secp_valid() -> (Vec<[Vec<u8>; 3]>, Vec<[Vec<u8>; 3]>) {
     }
     (k1, r1)
 }
+
+/// parse a whole expression in the text syntax used by the repository's tests
+pub fn parse_text(v: &str) -> Option<Dag> {
+    let mut d = Dag::new();
+    let (_, rest) = parse_exp(&mut d, v)?;
+    if !rest.trim().is_empty() {
+        return None;
+    }
+    Some(d)
+}
